@@ -18,7 +18,7 @@ STYLES = ["camelCase", "PascalCase", "kebab-case", "snake_case", "SCREAMING_SNAK
 SPELLINGS = ["blue", "Blue", "BLUE", "b", "dark-red", "Dark Red", "r3d", "42", "", " pad ", "é", "É", "straße", "STRASSE",
              "K", "k", "i", "I", "ss", "s", "naïve", "NAÏVE", "x_y", "X-Y", "a.b", "A.B", "long-spelling-here", "q", "Q!",
              "日本", "ﬁ", "fi", "tab\there", "quote\"d", "back\\slash", "ab", "aB", "abc", "ABCD", "abcde"]
-FIELD_TYPES = ["u8", "i32", "bool", "String", "usize", "Option<u8>"]
+FIELD_TYPES = ["u8", "i32", "bool", "String", "usize", "Option<u8>", "Tick"]
 
 
 def flips(s: str, rng, cap):
